@@ -6,7 +6,7 @@ HARNESSES = ['h_c01.cpp', 'h_load.cpp']
 LEVEL = 'translation_validation'
 def OPTS(tier): return ['O0', 'O1', 'O2'] if tier == 'quick' else ['O0', 'O1', 'O2', 'O3']
 BUDGET = {'quick': 290, 'thorough': 3000}
-BOUNDS = {'quick': 'the same linked module (library + harness) encoded from clang-14 IR at -O0, -O1, -O2; corpora: C01 build->write->load configurations (12) and C02/C04 load->save->load files (7 layouts) with symbolic payload, run with the SAME symbolic variables on every encoding. For every pair of paths (one per encoding) whose path conditions are jointly satisfiable: same outcome / exception class, observation-for-observation equality and output-byte-for-output-byte equality decided by z3. On the -O0 encoding additionally: no value derived from never-written memory reaches an observation, an output byte or a branch',
+BOUNDS = {'quick': 'the same linked module (library + harness) encoded from clang-14 IR at -O0, -O1, -O2; corpora: C01 build->write->load configurations (12) and C02/C04 load->save->load files (7 layouts, plus 2 files cut inside their data section like the repository's Optotrak.c3d) with symbolic payload, run with the SAME symbolic variables on every encoding. For every pair of paths (one per encoding) whose path conditions are jointly satisfiable: same outcome / exception class, observation-for-observation equality and output-byte-for-output-byte equality decided by z3. On the -O0 encoding additionally: no value derived from never-written memory reaches an observation, an output byte or a branch',
           'thorough': 'plus -O3; 27 C01 configurations and every C02 layout'}
 OUTSIDE = 'g++ code generation (the project\'s compiler) and the static/shared axis: there is no machine-code or linker model here, stated as reduced strength; vectorised code (vectorisers are off in the encodings)'
 ASSUMPTIONS = ['arithmetic that is undefined in ISO C++ (signed overflow and out-of-range float->int in hex2uint) is executed with x86-64 machine semantics on every encoding and LOGGED with its IR location, not failed: a native experiment showed g++ -O0..-O3 and clang agree on it']
@@ -23,13 +23,19 @@ def jobs(tier, seed):
             j = dict(j); j['cfg'] = {'gens': 1 if tier == 'quick' else 2, 'dump': 1, 'obsfiles': 0}; j['family'] = 'file'
             if tier == 'quick': j['opts'] = dict(j['opts'], extras=j['opts'].get('extras', [])[:1], symbolic_meta=False); j['shape'] = dict(j['shape'], F=1)
             out.append(j)
+    # a file shorter than it declares (the repository ships and tests one: Optotrak.c3d is cut inside its data section)
+    for name, cut in (('truncated-in-data', 13), ('truncated-last-frame', 40)):
+        out.append({'entry': 'h_load', 'harness': 'h_load.cpp', 'name': name, 'cfg': {'gens': 1, 'dump': 1, 'obsfiles': 0}, 'family': 'file', 'truncate': cut,
+                    'shape': {'P': 2, 'C': 0, 'sub': 0, 'F': 3}, 'lay': {}, 'opts': {'analog': 'empty', 'symbolic_meta': False}})
     return out
 
 def run_job(engine, job):
     res = new_result()
     files = None; assume = None
     if job['family'] == 'file':
-        S, c, lay, cells = c02.build_file(job); files = {'in.c3d': gen.to_engine_cells(cells)}; assume = S.cons
+        S, c, lay, cells = c02.build_file(job)
+        if job.get('truncate'): cells = cells[:len(cells) - job['truncate']]
+        files = {'in.c3d': gen.to_engine_cells(cells)}; assume = S.cons
     runs = {}; ub = {}
     opts = job['opts_levels']
     q = 0; tsol = 0.0
